@@ -57,7 +57,6 @@ STATEFUL = [
     (2, 'vx := "one";', 0),
     (2, 'vy: MachineInteger == 9;', 1),
     (0, 'vf(s: String): MachineInteger == s;', 1),            # ill-typed overload of an existing function
-    (0, 'vnl: List MachineInteger := [1, 2];', 0),            # uses a type whose import is missing
 ]
 
 
